@@ -24,39 +24,40 @@
 
   THE RECORD SCANNERS (`seqio.GenBankParser` with `genbankLocusParser`, every field sub-parser,
   `tryAllParsers`, the ORIGIN reader, `INSDCTableParser`; model: Gts/Model/GenBankParse.lean,
-  InsdcParse.lean, Origin.lean; lemmas: Gts/Lemmas/ParsSorted.lean, GbSafe*.lean, GbFuel.lean,
-  GbOriginDecode.lean, FastaScan.lean):
+  InsdcParse.lean, Origin.lean; lemmas: Gts/Lemmas/ParsSorted.lean, GbSafe*.lean, ParsProgress.lean,
+  GbProgress.lean, GbFuel.lean, GbOriginDecode.lean, FastaScan.lean):
 
-  * NO PANIC, for every byte string shorter than 10^9 bytes, from every sorted state
-    (`genbankParser_nopanic_partial`, `readAll_nopanic_partial`, `table_nopanic`,
-    `originField_nopanic`, `validateOrigin_nopanic`).  The field parsers `Clear` the stack and `Pop`
-    frames that are not theirs, so the frame invariant `Fr` of the string parsers is replaced by
-    the S-invariant "all saved positions sorted and bounded" (`Fr L [] 0`); `patchFrames` (the
-    DEFINITION body joined in place) keeps every frame's length because the LOCUS parser reports
-    an indent of at least five columns.  The ORIGIN reader's three panic sites need the range check
-    of `GenBankParser` and `length < 10^9`, which follows from the bytes left.
+  * NO PANIC, for EVERY byte string and every registry, from every sorted state
+    (`genbankParser_nopanic`, `readAll_nopanic`, `table_nopanic`, `originField_nopanic`,
+    `validateOrigin_nopanic`; the `_partial` forms with the former bound of 10^9 bytes are kept as
+    corollaries).  The field parsers `Clear` the stack and `Pop` on a possibly empty one, so the
+    frame invariant `Fr` of the string parsers is replaced by the S-invariant "all saved positions
+    sorted and bounded" (`Fr L [] 0`); `patchFrames` (the DEFINITION body joined in place) keeps
+    every frame's length because the LOCUS parser reports an indent of at least five columns.  The
+    ORIGIN reader's three panic sites need the range check of `GenBankParser` and the guard
+    `length ≤ 1000000020` of be672b0, which is EXACTLY the largest length whose line indices fit
+    nine columns (`validateOrigin_nopanic` for `≤ 1000000020`, `validateOrigin_wide_index_panics`
+    at 1000000021).
   * INTERNAL CONSISTENCY (`genbank_length_consistent`, `genbank_sequence_decodes`,
     `originField_decodes`, `accepted_block_is_written`): a returned record has
     declared length = `Origin.Len()` = number of residues `Origin.Bytes()` decodes (no panic), or
-    no sequence at all next to a CONTIG line.
+    no sequence at all next to a CONTIG line — for every declared length.
   * FUEL (`bodyMore_fuel_stable`, `taxonMore_fuel_stable`, `dblinkMore_fuel_stable`,
-    `parseAll_fuel_stable_partial`, `recordLoop_fuel_partial`).
+    `parseAll_fuel_stable`, `recordLoop_fuel_stable`, `recordLoop_fuel_full`,
+    `genbankParser_loop_fuel`, `recordLoop_fuel_partial`): the record loop makes at most
+    `bytes left + 1` iterations from any sorted state (since 66de3a0; the forward invariant
+    `Pars.Fw`: no sub-parser pops a saved position that is older than its own entry).
 
   PARTIAL, named as such (DESIGN.md section 6, C07):
   * "time proportional to the input" is NOT a Lean theorem.  What is proved is termination with an
-    explicit measure; no step count is stated.
+    explicit measure and a linear bound on the ITERATIONS of the record loop and of the scan loop;
+    the work inside one iteration (eleven sub-parsers, each of which may read ahead over
+    continuation lines and restore) is not counted.
   * stack exhaustion of the Go run time on deeply nested `complement(` and the memory held by
     leaked `Push` frames are below the level of the model; they are covered by the depth sweep of
     the harness (recorded in the evidence), not by a theorem.
-  * the bound of 10^9 bytes on the record scanner's input is needed: beyond it `validateOrigin`
-    indexes past its buffer on a well-formed block (`validateOrigin_wide_index_panics`; a finding
-    about the code, it needs more than a gigabyte of input).
-  * the fuel `2n+2` of the record loop is NOT adequate in general (`recordLoop_fuel_full_refuted`):
-    leaked location-parser frames plus a SOURCE field without ORGANISM make the scanner re-read
-    lines, quadratically often (a finding about the code: a 28 KB record takes 22 s).  Proved
-    instead: running out of fuel can only show up as the error value.  The loops of the qualifier
-    and feature-table readers (`qualifiers`, `tableMore`, `literalMore`) and `refSubfields` have
-    no fuel theorem.
+  * the loops of the qualifier and feature-table readers (`qualifiers`, `tableMore`,
+    `literalMore`) and `refSubfields` have no fuel theorem.
   * the FASTA scanner is covered on its modelled fragment (`fasta_scan_nopanic`); K7C is about
     content, not panics.
 -/
@@ -505,38 +506,54 @@ example : ((GenBank.genbankParser GenBank.Registry.default).run' ⟨sampleRecord
 
 /-! ## the loops of the GenBank reader: fuel ("never hangs") -/
 
-/- FULL statement (same shape as `loc_fuel_stable`), which is FALSE:
+/-- THE RECORD LOOP NEVER RUNS OUT OF FUEL ("never loops forever", the loop of `GenBankParser`):
+from ANY state whose saved positions are sorted — also with positions on the stack that earlier
+parsers leaked — every iteration either ends the loop (end mark, hard failure, end of input) or
+leaves strictly fewer bytes: a parsed field has consumed its name, a skipped line at least one
+byte, and no sub-parser ever goes back behind the position where the iteration began.  Hence the
+fuel is an iteration counter that is never used up once it exceeds the number of bytes left: any
+two such fuels give the same outcome and the same final state.  THE NUMBER OF ITERATIONS IS AT MOST
+`bytes left + 1`.  (`depth ≥ 1`: `genbankLocusParser` reports an indent of at least 5, see
+`genbankParser_loop_fuel`.)
 
-     theorem recordLoop_fuel_stable (length depth sub) (s : PS) (hs : Sorted s.rest.length s.stk)
-         (n m : Nat) (hn : 2 * s.rest.length + 2 ≤ n) (hnm : n ≤ m) :
-         (recordLoop length depth n sub).run' s = (recordLoop length depth m sub).run' s
+Before 66de3a0 this was FALSE and its negation was the theorem `recordLoop_fuel_full_refuted`
+(removed): a SOURCE field without ORGANISM popped the frame of `tryAllParsers` AND one more saved
+position; with frames leaked by a failing location parser on the stack the scan went back and read
+the lines in between again, once per leaked frame — quadratically often (F34: 7 KB took 1.6 s,
+28 KB 42 s on the real code).  The parser now clears the stack there and fails the record. -/
+theorem recordLoop_fuel_stable (length : Int) (depth : Nat) (hd : 1 ≤ depth) (sub : GenBank.Sub)
+    (s : PS) (hs : Sorted s.rest.length s.stk) (n m : Nat) (hn : s.rest.length < n)
+    (hm : s.rest.length < m) :
+    (GenBank.recordLoop length depth n sub).run' s = (GenBank.recordLoop length depth m sub).run' s :=
+  GenBank.recordLoop_fuel length depth hd n m sub s hs hn hm
 
-   The loop of `GenBankParser` does NOT consume input in every iteration: a SOURCE field without
-   ORGANISM pops the frame of `tryAllParsers` AND one more saved position; if a failing location
-   parser inside the feature table has leaked frames, that position lies BEFORE the current one
-   and the lines in between are read again, once per leaked frame.  The number of iterations is
-   quadratic in the input size (`join(join(…(1^3` leaks one frame per five bytes).  On the real
-   code a 28 KB record of that shape takes 22 s (measured; ten times the size, a hundred times as
-   long).  Refuted below from a
-   sorted state; from the FRESH state the model shows the same on
-   `FEATURES⏎a 1⏎a join(×20 1^3⏎ (x⏎)×20 SOURCE      x⏎//⏎` (176 bytes, 422 iterations against a
-   fuel of 354; evaluated with `#eval`, not a theorem: the kernel cannot run the well-founded
-   `LocParse.loc`).  On this family the model (out of fuel) and the code (hard failure at the last
-   reading of the SOURCE line) both end in an error. -/
+/-- the statement in the shape it was refuted in (fuel `2·bytes + 2` as in `GenBankParser`, and
+any larger fuel) -/
+theorem recordLoop_fuel_full (length : Int) (depth : Nat) (hd : 1 ≤ depth) (sub : GenBank.Sub)
+    (s : PS) (hs : Sorted s.rest.length s.stk) (n m : Nat) (hn : 2 * s.rest.length + 2 ≤ n)
+    (hnm : n ≤ m) :
+    (GenBank.recordLoop length depth n sub).run' s = (GenBank.recordLoop length depth m sub).run' s :=
+  recordLoop_fuel_stable length depth hd sub s hs n m (by omega) (by omega)
 
-/-- the refuted full statement: from the sorted state `GenBank.rescanState` (37 bytes left: twenty
-empty lines and a SOURCE field without ORGANISM; three saved copies of that position) fuel
-`76 = 2·37+2` and fuel `200` end in different states -/
-theorem recordLoop_fuel_full_refuted :
-    ¬ ∀ (length : Int) (depth : Nat) (sub : GenBank.Sub) (s : PS), Sorted s.rest.length s.stk →
-      ∀ n m, 2 * s.rest.length + 2 ≤ n → n ≤ m →
-        (GenBank.recordLoop length depth n sub).run' s =
-          (GenBank.recordLoop length depth m sub).run' s :=
-  GenBank.recordLoop_fuel_refuted
+/-- … as `GenBankParser` runs it: behind a LOCUS line that was read (its indent is the `depth`),
+on the cleared stack, the fuel `2n+2` it passes gives what every fuel above the `n` bytes left
+gives — in particular `n + 1`: the loop makes at most `n + 1` iterations. -/
+theorem genbankParser_loop_fuel (s s1 : PS) (l : GenBank.Locus)
+    (h : GenBank.locusParser.run' s = (.ok l, s1)) (sub : GenBank.Sub) (m : Nat)
+    (hm : s1.rest.length < m) :
+    (GenBank.recordLoop l.length l.depth (2 * s1.rest.length + 2) sub).run' ⟨s1.rest, []⟩ =
+      (GenBank.recordLoop l.length l.depth m sub).run' ⟨s1.rest, []⟩ := by
+  have hd := GenBank.locusParser_depth s
+  unfold WP at hd
+  rw [h] at hd
+  have := hd l rfl
+  exact recordLoop_fuel_stable l.length l.depth (by omega) sub ⟨s1.rest, []⟩ trivial _ _
+    (by show s1.rest.length < _; omega) hm
 
-/-- what holds of the record loop's fuel: running out of it can only ever show up as the error
-value.  An outcome other than that error — a record, or a panic — and its final state are the
-same for every larger fuel: no record is ever lost or altered by the fuel. -/
+/-- the weaker statement that was all that held before 66de3a0 (kept; it needs neither the sorted
+state nor `depth ≥ 1`): running out of fuel can only ever show up as the error value.  An outcome
+other than that error — a record, or a panic — and its final state are the same for every larger
+fuel: no record is ever lost or altered by the fuel. -/
 theorem recordLoop_fuel_partial (length : Int) (depth : Nat) (k m : Nat) (sub : GenBank.Sub)
     (s s' : PS) (r : Except Err GenBank.Sub)
     (h : (GenBank.recordLoop length depth k sub).run' s = (r, s')) (hr : r ≠ .error .fail)
@@ -585,13 +602,19 @@ theorem parseAll_fuel_stable_partial (reg : GenBank.Registry) (input : Bytes)
     GenBank.parseAll reg n input acc = GenBank.parseAll reg m input acc :=
   parseAll_fuel_stable reg input acc n m hn hm
 
-/-- non-vacuity: the refuting state is sorted and the two fuels are at least `2n+2`; in the sample
-record the body loop runs with `depth = 12`, and the scan loop on two records agrees for the
-fuels 177 and 1000 -/
+/-- non-vacuity: the state that used to refute the fuel statement (37 bytes left: twenty empty
+lines and a SOURCE field without ORGANISM; three saved copies of that position) is sorted, the
+fuels 38, 76 = 2·37+2 and 200 are above the bytes left, and all three now end in the same state,
+3 bytes before the end (the first reading of the SOURCE line fails the record; it used to be 21
+resp. 17 bytes for the fuels 76 and 200); the LOCUS line of the sample is read with `depth = 12`;
+in the sample record the body loop runs with that depth, and the scan loop on two records agrees
+for the fuels 177 and 1000 -/
 example : Sorted GenBank.rescanState.rest.length GenBank.rescanState.stk ∧
-    2 * GenBank.rescanState.rest.length + 2 ≤ 76 ∧
-    ((GenBank.recordLoop 0 12 76 GenBank.sub0).run' GenBank.rescanState).2.rest.length = 21 ∧
-    ((GenBank.recordLoop 0 12 200 GenBank.sub0).run' GenBank.rescanState).2.rest.length = 17 ∧
+    GenBank.rescanState.rest.length < 38 ∧ 2 * GenBank.rescanState.rest.length + 2 ≤ 76 ∧
+    ((GenBank.recordLoop 0 12 38 GenBank.sub0).run' GenBank.rescanState).2.rest.length = 3 ∧
+    ((GenBank.recordLoop 0 12 76 GenBank.sub0).run' GenBank.rescanState).2.rest.length = 3 ∧
+    ((GenBank.recordLoop 0 12 200 GenBank.sub0).run' GenBank.rescanState).2.rest.length = 3 ∧
+    cls ((GenBank.recordLoop 0 12 38 GenBank.sub0).run' GenBank.rescanState).1 = 1 ∧
     (GenBank.locusParser.run' ⟨sampleRecord, []⟩).1.toOption.map (·.depth) = some 12 ∧
     (GenBank.parseAll GenBank.Registry.default 177 (sampleRecord ++ sampleRecord) []).map
       (fun r => r.1.length) = some 2 ∧
